@@ -112,7 +112,7 @@ def run(ctx):
     f = ctx.fn(common.TOK % "from_meta_impl::FromMetaImpl<'_>")
     if f:
         # the candidate list may be computed in the generator or in a helper it calls
-        cand = [(g, t) for g in [f] + ctx.local_callees(f) for _, t in ctx.find_calls(g, r"Iterator>::map|Iterator::map") if "as_name" in ctx.expr(g, t["args"][1])]
+        cand = [(g, t) for g in [f] + ctx.local_callees(f, depth=2) for _, t in ctx.find_calls(g, r"Iterator>::map|Iterator::map") if "as_name" in ctx.expr(g, t["args"][1])]
         ok = len(cand) == 1
         why = "%d candidate lists" % len(cand)
         if ok:
@@ -129,7 +129,7 @@ def run(ctx):
             why = "candidates come from %s; filter keeps a variant under %s" % (recv[:100], tc)
         if not cand:
             # the same list built by a loop: one push of variant.as_name() per non-skipped variant
-            lp = [(g, h) for g in [f] + ctx.local_callees(f) for h in ctx.per_element(g, r"Vec::<.*>::push$")
+            lp = [(g, h) for g in [f] + ctx.local_callees(f, depth=2) for h in ctx.per_element(g, r"Vec::<.*>::push$")
                   if h["form"] == "loop" and re.search(r"Variant::<'a>::as_name\(|Variant::as_name\(|::as_name\(", ctx.expr(h["owner"], h["t"]["args"][1]))]
             if len(lp) == 1:
                 g, h = lp[0]
